@@ -12,6 +12,10 @@ SKIP = {'nphi', 'nfourier', 'min_R0_threshold', 'd_d_phi', 'd_d_varphi'}
 THRESHOLDED = ('r_singularity', 'inv_r_singularity')  # absolute float thresholds inside: modelled, not verified
 
 
+CIRCULAR_ONLY = {'min_R0', 'R0', 'axis_length', 'G0', 'curvature', 'd_l_d_phi', 'd_l_d_varphi', 'abs_G0_over_B0', 'X1c', 'Y1s', 'elongation', 'max_elongation', 'mean_elongation',
+                 'L_grad_B', 'min_L_grad_B', 'inv_L_grad_B', 'mean_of_R', 'rms_curvature', 'Bbar', 'B0', 'etabar', 'varphi', 'd_varphi_d_phi'}
+
+
 def scaled_cfg(cfg, lam, c):
     d = dict(cfg)
     for k in ('rc', 'zs', 'rs', 'zc'):
@@ -28,7 +32,7 @@ def scaled_cfg(cfg, lam, c):
     return d
 
 
-def predict(cfg, lam, c, tol=1e-6, include_thresholded=False, q0=None):
+def predict(cfg, lam, c, tol=1e-6, include_thresholded=False, q0=None, only=None):
     """violations of the scaling law on one input: list of dicts (q0: the original object, possibly reached through a history)"""
     if q0 is None:
         q0, m0 = build(cfg, shear=True)
@@ -38,7 +42,7 @@ def predict(cfg, lam, c, tol=1e-6, include_thresholded=False, q0=None):
     a0, a1 = flat_attrs(q0), flat_attrs(q1)
     out, checked = [], 0
     for k, v in a0.items():
-        if k in SKIP or k not in DIMS:
+        if k in SKIP or k not in DIMS or (only is not None and k not in only):
             continue
         if k.startswith(THRESHOLDED) and not include_thresholded:
             continue
@@ -88,13 +92,15 @@ def main():
     # distilled inputs first: a well-converged axis whose last harmonics are of the order of 1e-13, and the shared corpus, under moderate AND extreme changes of
     # unit (an absolute tolerance anywhere in the construction is crossed by one of them; the pinned tree obeys the law to 1e-6 for all of these)
     fixed = [dict(rc=[1.0] + [0.6 * 0.07 ** k for k in range(1, 12)], zs=[0.0] + [0.55 * 0.07 ** k for k in range(1, 12)], nfp=3, etabar=0.9, order='r2',
-                  B2c=0.3, p2=-2.0e4, I2=0.1, B0=1.1, nphi=31)] + [c_ for c_, _ in corpus_objects(histories=False)]
+                  B2c=0.3, p2=-2.0e4, I2=0.1, B0=1.1, nphi=31),
+             dict(rc=[1.6], zs=[0.0], nfp=1, etabar=0.9, order='r1', nphi=15)] + [c_ for c_, _ in corpus_objects(histories=False)]      # (second: a circular axis, every profile constant)
     for cfg in fixed:
         if res['violations'] or (a.mode == 'search' and time.time() - t0 > a.budget / 2):
             break
         for lam, c in ((1e-4, 1.0), (1.0, 1e5), (3e3, 1e-3), (0.2, 1.0)):
             try:
-                v, n = predict(cfg, lam, c)
+                # (circular axis: every toroidal derivative is round-off noise around zero, so only the profiles and scalars that do not vanish are compared)
+                v, n = predict(cfg, lam, c, only=CIRCULAR_ONLY if len(cfg['rc']) == 1 else None)
             except Exception:
                 continue
             res['predictions_checked'] += n
